@@ -131,7 +131,7 @@ theorem aag_parse_sizes (l : LitTy) (hl : 1 ≤ l.maxCode) (lr lr' : LR) (a : Ai
       (∀ g ∈ a.gates, g.out ≤ 2 * a.maxVarIndex + 1 ∧ g.out % 2 = 0 ∧ 2 ≤ g.out ∧
         g.in0 ≤ 2 * a.maxVarIndex + 1 ∧ g.in1 ≤ 2 * a.maxVarIndex + 1) := by
   unfold parseAag at h
-  rw [run_bind] at h
+  rw [Aiger.run_bind] at h
   rcases hp : (Parser.new false l).run lr with ⟨e | p, lr1⟩
   · rw [hp] at h; cases h
   · rw [hp] at h
@@ -174,7 +174,7 @@ theorem aig_parse_sizes (l : LitTy) (hl : 1 ≤ l.maxCode) (lr lr' : LR) (a : Or
       (∀ x ∈ a.outputs ++ a.bad ++ a.constraints ++ a.justice.flatten ++ a.fairness,
         x ≤ 2 * a.maxVarIndex + 1) := by
   unfold parseAig at h
-  rw [run_bind] at h
+  rw [Aiger.run_bind] at h
   rcases hp : (Parser.new true l).run lr with ⟨e | p, lr1⟩
   · rw [hp] at h; cases h
   · rw [hp] at h
